@@ -94,7 +94,7 @@ ImgNx(rom, s, e) ==
   LET iv == <<e.imgAbs, e.imgAbs + e.size>>
       dg == <<e.at + 32, e.at + 32 + e.hashLen>> IN
   [s EXCEPT !.imgs = IF e.size > 0 THEN @ \cup {iv} ELSE @,
-            !.hp = (IF e.size > 0 THEN @ \cup {iv} ELSE @) \cup {dg},
+            !.hp = (IF e.size > 0 THEN @ \cup {iv} ELSE @) \cup {dg} \cup (IF e.enc THEN {<<e.at + 96, e.at + 128>>} ELSE {}),
             !.k = @ + 1,
             !.st = IF s.k + 1 < s.c.nImages THEN "Img" ELSE "SigBlk"]
 
